@@ -39,7 +39,7 @@ RULE = ("generated variants of an 8-class model with callbacks at every placemen
         "dictionary fields and tuples; expected invocation log, metadata chain and emitted call sites known by construction; "
         "non-trivial = at least one callback site; distinct by ast.dump")
 
-PLACEMENTS = ["collcls", "trackcls", "trackpt", "jetcls", "jetpt", "jettrks", "evcls", "evjets", "fproc", "pcb", "subx",
+PLACEMENTS = ["itcls", "collcls", "trackcls", "trackpt", "jetcls", "jetpt", "jettrks", "evcls", "evjets", "fproc", "pcb", "subx",
               "partcls", "partpt", "lepcls", "lepeta", "lepiso", "mucls"]
 
 
@@ -80,12 +80,16 @@ def gen_desc(r):
                          {"name": "subs", "ret": "Iterable[SubTrack]"},
                          {"name": "leps", "ret": "Iterable[Lepton]"},
                          {"name": "ctrks", "ret": "TrkColl[Track]"}]},
+            # a user iterable with a class-level callback that declares its own Where: the call is written against this
+            # class, so its callback fires at the .Where site although a collection class provides the typing
+            {"name": "JetIt", "base": "Iterable[T]", "cb": g("itcls"),
+             "methods": [{"name": "Where", "params": [("test", None)], "ret": "Iterable[T]"}, {"name": "Last", "ret": "T"}]},
             {"name": "JetList", "base": "Iterable[Jet]", "methods": []},
             {"name": "GoodJets", "base": "JetList", "methods": []},      # plain subclass: iterable through the inherited base
             {"name": "Event", "cb": g("evcls"),
              "methods": [{"name": "Jets", "ret": "Iterable[Jet]", "cb": g("evjets")}, {"name": "met", "ret": ret("float")},
                          {"name": "Muons", "ret": "Iterable[Muon]"}, {"name": "GoodJets", "ret": "GoodJets"},
-                         {"name": "CTrks", "ret": "TrkColl[Track]"}, {"name": "LeadLep", "ret": "Lepton"},
+                         {"name": "CTrks", "ret": "TrkColl[Track]"}, {"name": "ItJets", "ret": "JetIt[Jet]"}, {"name": "LeadLep", "ret": "Lepton"},
                          {"name": "LeadMu", "ret": "Muon"}, {"name": "Parts", "ret": "Iterable[Particle]"}]},
         ],
         "functions": [{"name": "myf", "params": [("a", None)], "ret": "float", "proc": g("fproc")},
@@ -104,7 +108,7 @@ METHODS = {  # class -> method -> (method cb placement, result kind)
     "SubTrack": {"pt": ("trackpt", "float"), "eta": (None, "float"), "x": ("subx", "float")},
     "Jet": {"pt": ("jetpt", "float"), "trks": ("jettrks", "iter:Track"), "subs": (None, "iter:SubTrack"),
             "leps": (None, "iter:Lepton"), "ctrks": (None, "coll:Track")},
-    "Event": {"Jets": ("evjets", "iter:Jet"), "met": (None, "float"), "Muons": (None, "iter:Muon"), "GoodJets": (None, "iter:Jet"), "CTrks": (None, "coll:Track"),
+    "Event": {"Jets": ("evjets", "iter:Jet"), "met": (None, "float"), "Muons": (None, "iter:Muon"), "GoodJets": (None, "iter:Jet"), "CTrks": (None, "coll:Track"), "ItJets": (None, "own:Jet"),
               "Parts": (None, "iter:Particle"), "LeadLep": (None, "obj:Lepton"), "LeadMu": (None, "obj:Muon")},
     "Particle": {"pt": ("partpt", "float"), "eta": (None, "float"), "phi": (None, "float")},
     "Lepton": {"pt": ("partpt", "float"), "eta": ("lepeta", "float"), "phi": (None, "float"), "iso": ("lepiso", "float")},
@@ -168,13 +172,18 @@ class Q:
             a, ax = self.scalar(cls, v, d, ev)
             b, bx = self.scalar(cls, v, d, ev)
             return gen.binop(ast.Add, a, b), gen.binop(ast.Add, ax, bx)
-        opts = ["pt", "fn", "plain", "binop", "param"] if cls in ("Track", "SubTrack") else \
-            ["pt", "fn", "binop", "nestfirst", "nestcount", "dict"] if cls == "Jet" else \
-            ["met", "fn", "nestfirst", "nestcount", "tuple", "lead", "lead"]
+        opts = ["pt", "fn", "plain", "binop", "param", "called"] if cls in ("Track", "SubTrack") else \
+            ["pt", "fn", "binop", "nestfirst", "nestcount", "dict", "called"] if cls == "Jet" else \
+            ["met", "fn", "nestfirst", "nestcount", "tuple", "lead", "lead", "called"]
         k = r.choice(opts)
         if k in ("pt", "met"):
             w, x, _ = self.mcall(cls, N(v), N(v), k, ev)
             return w, x
+        if k == "called":
+            # an immediately called lambda: its body is part of the query, its parameter has the argument's type
+            z = r.choice(["z", v, "q"])
+            w, x = self.scalar(cls, z, d, ev)
+            return call(lam(z, w), [N(v)]), call(lam(z, x), [N(v)])
         if k == "lead":
             # a method of an object returned directly (no lambda): e.LeadLep().pt()
             o, ox, res = self.mcall("Event", N(v), N(v), r.choice(["LeadLep", "LeadMu"]), ev)
@@ -204,10 +213,10 @@ class Q:
             body_ev = []
             nv = r.choice(["t", v, "q"])
             b, bx = self.scalar(sub, nv, d + 1, body_ev)
-            cw = tc.op_call(r, coll, "Where", lam(nv, gen.cmp(ast.Gt, b, C(1))), 0.5)
+            cw = tc.op_call(r, coll, "Where", lam(nv, gen.cmp(ast.Gt, b, C(1))), 0.0 if kind == "own" else 0.5)
             cx = call(A(collx, "Where"), [lam(nv, gen.cmp(ast.Gt, bx, C(1)))])
             ev += body_ev
-            cx = self.cfire(kind, cx, ev)
+            cx = self.cfire(kind, cx, ev, "Where")
             return call(A(cw, "Count"), []), call(A(cx, "Count"), [])
         if k in ("dict", "tuple"):
             if k == "dict":
@@ -227,16 +236,19 @@ class Q:
         """an Iterable-valued expression over v : cls -> (written, expected, element class)"""
         r = self.r
         if cls == "Event":
-            w, x, res = self.mcall("Event", N(v), N(v), r.choice(["Jets", "Jets", "Muons", "Parts", "GoodJets", "CTrks", "CTrks"]), ev)
+            w, x, res = self.mcall("Event", N(v), N(v), r.choice(["Jets", "Jets", "Muons", "Parts", "GoodJets", "CTrks", "CTrks", "ItJets", "ItJets"]), ev)
         else:
             w, x, res = self.mcall("Jet", N(v), N(v), r.choice(["trks", "subs", "leps", "ctrks"]), ev)
         self.kind = res.split(":")[0]
         return w, x, res.split(":")[1]
 
-    def cfire(self, kind, site, ev):
-        """a method called on the registered collection class: its class-level callback fires on that call site"""
+    def cfire(self, kind, site, ev, op=None):
+        """a method called on the registered collection class, or a method the user iterable declares itself: the
+        class-level callback of that class fires on the call site"""
         if kind == "coll" and "collcls" in self.cbs:
             return self.fire("collcls", site, ev)
+        if kind == "own" and op == "Where" and "itcls" in self.cbs:
+            return self.fire("itcls", site, ev)
         return site
 
     def top(self, cls, v, d, ev):
@@ -256,8 +268,8 @@ class Q:
             return tc.op_call(r, coll, "SelectMany", lam(nv, b)), call(A(collx, "SelectMany"), [lam(nv, bx)])
         if op == "Where+Select":
             c, cx = self.scalar(sub, nv, d + 1, ev)
-            coll = tc.op_call(r, coll, "Where", lam(nv, gen.cmp(ast.Lt, c, C(5))), 0.5)
-            collx = self.cfire(kind, call(A(collx, "Where"), [lam(nv, gen.cmp(ast.Lt, cx, C(5)))]), ev)
+            coll = tc.op_call(r, coll, "Where", lam(nv, gen.cmp(ast.Lt, c, C(5))), 0.0 if kind == "own" else 0.5)
+            collx = self.cfire(kind, call(A(collx, "Where"), [lam(nv, gen.cmp(ast.Lt, cx, C(5)))]), ev, "Where")
             kind = "iter"                                  # Where gives back a plain iterable
         b, bx = self.top(sub, nv, d + 1, ev)
         return tc.op_call(r, coll, "Select", lam(nv, b)), self.cfire(kind, call(A(collx, "Select"), [lam(nv, bx)]), ev)
